@@ -9,6 +9,8 @@ in-memory validator view built from it (`core/validators/validators.go`, `Valida
                  = `Precommit(true)` (identity_statedb.go:181) + `CommitTree` + `Clear`
 * `Cache`      = `ValidatorsCache`; `load` = `loadValidNodes` (validators.go:188), `update` =
                  `UpdateFromIdentityStateDiff` (validators.go:254); every public getter
+* `Ev`         = the registry writes of block application (blockchain/blockchain.go), one constructor per write site;
+                 `IdState.applyBlock` = the events of a block followed by `Commit(true)`
 
 Addresses are `Nat` (the driver/harness embed 20-byte addresses order-preservingly).  Go `mapset`s are lists without
 duplicates in an arbitrary (insertion) order; only membership and cardinality are observable, and the two places that
